@@ -10,7 +10,7 @@ use alloc::vec::Vec;
 use core::{iter::Chain, slice::Iter};
 use tracing::{info, warn};
 
-use crate::rr::{DNSClass, Name, RData, Record, RecordType};
+use crate::rr::{DNSClass, Name, RData, Record, RecordType, SerialNumber};
 
 /// Set of resource records associated to a name and type
 #[derive(Clone, Debug, PartialEq, Eq)]
@@ -295,7 +295,11 @@ impl RecordSet {
                     match &soa_record.data {
                         RData::SOA(existing_soa) => {
                             if let RData::SOA(new_soa) = &record.data {
-                                if new_soa.serial <= existing_soa.serial {
+                                // RFC 2136 3.4.2.2: ignored unless the serial is greater, in
+                                //  RFC 1982 sequence space arithmetic, than the zone's
+                                let newer = SerialNumber::new(new_soa.serial)
+                                    > SerialNumber::new(existing_soa.serial);
+                                if !newer {
                                     info!(
                                         "update ignored serial out of data: {:?} <= {:?}",
                                         new_soa, existing_soa
